@@ -129,7 +129,9 @@ func genHeader(c *hx.Ctx, i int) hdrInput {
 		case 1:
 			n = 125 + c.Rng.Intn(6) // body length crosses the 1->2 byte varint boundary
 		case 2:
-			n = 200 + c.Rng.Intn(60)
+			if i%3 == 0 {
+				n = 200 + c.Rng.Intn(60)
+			}
 		}
 		pid := validPid(c, n)
 		return hdrInput{data: cat(mk(pid), payload), kind: "valid", mustAccept: true, pid: pid, payload: payload}
@@ -281,30 +283,30 @@ func c07(c *hx.Ctx) {
 		c.Case(hx.App("Marsh", hx.Bytes(pid), hx.Bytes(out)), map[string]any{"kind": "marshal", "pid": hx.Hex(pid), "out": hx.Hex(out)})
 		c.Class("marshal")
 	}
-	inputs := []hdrInput{}
-	if c.Tier == "thorough" || c.Seed%1 == 0 {
-		inputs = append(inputs, limitCases(c)...)
+	// size limit: implementation + oracle only (100 kB literals are too slow for Coq;
+	// the theorems cover every size)
+	for _, in := range limitCases(c) {
+		chunks := []int{3, 1, 70000, 5}
+		cls, pid, rest := runHeader(in.data, chunks)
+		c.Eval()
+		c.Class(in.kind)
+		headerOracle(c, in, cls, pid, rest, map[string]any{"kind": in.kind, "len": len(in.data), "chunks": chunks, "class": cls, "data_prefix": hx.Hex(clip(in.data))})
 	}
+	inputs := []hdrInput{}
 	for i := 0; i < c.N; i++ {
 		inputs = append(inputs, genHeader(c, i))
 	}
 	for _, in := range inputs {
 		chunks, cname := chunksFor(c, len(in.data))
-		if len(in.data) > 2000 {
-			chunks, cname = []int{3, 1, 70000, 5}, "random"
-		}
 		cls, pid, rest := runHeader(in.data, chunks)
 		desc := map[string]any{"kind": in.kind, "chunking": cname, "chunks": chunks, "data": hx.Hex(clip(in.data)), "len": len(in.data), "class": cls, "pid": hx.Hex(clip(pid)), "rest": hx.Hex(rest)}
-		c.Case(hx.App("Hdr", hx.NatList(chunks), hx.Bytes(in.data), hx.Nat(cls), hx.Bytes(pid), hx.Bytes(rest)), desc)
+		c.Case(hx.App("Hdr", natList(chunks), hx.Bytes(in.data), hx.Nat(cls), hx.Bytes(pid), hx.Bytes(rest)), desc)
 		c.Class(in.kind + "/" + cname)
 		c.Class("outcome-" + map[int]string{0: "accepted", 1: "eof", 2: "header-error", 7: "empty-pid", 8: "invalid-pid", 99: "panic"}[cls])
 		c.Nontrivial(in.kind + hx.Hex(clip(in.data)))
 		headerOracle(c, in, cls, pid, rest, desc)
 		// chunking independence, directly: the other two styles must give the same result
 		for _, alt := range [][]int{c.Chunking(len(in.data), 0), nil} {
-			if len(in.data) > 2000 {
-				break
-			}
 			c2, p2, r2 := runHeader(in.data, alt)
 			c.Eval()
 			if c2 != cls || !bytes.Equal(p2, pid) || !bytes.Equal(r2, rest) {
@@ -482,7 +484,7 @@ func c07dispatch(c *hx.Ctx) {
 			desc["pid"] = hx.Hex([]byte(d.pid))
 			desc["rest"] = hx.Hex(d.rest)
 		}
-		c.Case(hx.App("Disp", hx.NatList(chunks), hx.Str(peers[li]), hx.Str(peers[ri]), hx.Bytes(in.data), hx.Bool(len(got) > 0),
+		c.Case(hx.App("Disp", natList(chunks), hx.Str(peers[li]), hx.Str(peers[ri]), hx.Bytes(in.data), hx.Bool(len(got) > 0),
 			hx.Str(d.pid), hx.Str(d.local), hx.Str(d.remote), hx.Bytes(d.rest)), desc)
 		if len(got) > 0 {
 			c.Nontrivial("disp" + hx.Hex(in.data) + peers[li] + peers[ri])
